@@ -89,6 +89,7 @@ let () =
          | "rv" -> c := remove_star_vertex thr !c (z 0); k := spec_remove_star !k [z 0]
          | "re" -> c := remove_star_edge thr !c (z 0) (z 1); k := spec_remove_star !k (sort_set za)
          | "rs" -> c := remove_star_simplex thr !c (sort_set za); k := spec_remove_star !k (sort_set za)
+         | "ci" -> c := contract_edge !c (z 0) (z 1); k := spec_contract !k (z 0) (z 1)
          | "ce" ->
            let before = snd !k in
            let lc = spec_link_condition before (z 0) (z 1) in
